@@ -221,10 +221,12 @@ structure T2Raw where
   residualCap : Int
   kSurface : Int
   indexVer : Int               -- `index.index_version()`
+  indexTok : Nat               -- `index_token(index)`: process-local identity of the index OBJECT
+  labelMap : Nat               -- digest of `_build_label_map(state)` (labels of ALL nodes of the active graphs)
+  hybrid : Nat                 -- with hybrid reranking on: the hybrid settings + `gel_digest(state)` (GEL edges); else 0
   -- read by the stage, NOT in the key
-  index : Nat                  -- identity and content of the memory index of this state
-  labelMap : Nat               -- `_build_label_map(state)` (labels of ALL nodes of the active graphs)
-  rest : Nat                   -- hybrid config + GEL graph, quality settings outside the digest, ctx.enc
+  index : Nat                  -- content of the memory index (what `(indexTok, indexVer)` stands for)
+  rest : Nat                   -- ctx.enc (a custom encoder object), the CONTENTS of an aliasing map file
 deriving Repr, DecidableEq
 
 structure T2Key where
@@ -243,23 +245,29 @@ structure T2Key where
   residualCap : Int
   kSurface : Int
   indexVer : Int
+  indexTok : Nat
+  labelMap : Nat
+  hybrid : Nat
 deriving Repr, DecidableEq
 
 def t2Key (r : T2Raw) : T2Key :=
   { tiers := r.tiers, q := t2QText r.text r.labels, recentDays := r.recentDays, simThr := r.simThr, topM := r.topM,
     quality := r.quality, sliceK := r.sliceK, ownerScope := r.ownerScope, owner := r.owner,
     kRetrieval := r.kRetrieval, now := r.now, rank := r.rank, residualCap := r.residualCap,
-    kSurface := r.kSurface, indexVer := r.indexVer }
+    kSurface := r.kSurface, indexVer := r.indexVer, indexTok := r.indexTok, labelMap := r.labelMap,
+    hybrid := r.hybrid }
 
 /-- What retrieval + rescoring + residual consume. -/
 structure T2Eff where
   key : T2Key
   index : Nat
-  labelMap : Nat
   rest : Nat
 deriving Repr, DecidableEq
 
-def t2Eff (r : T2Raw) : T2Eff := ⟨t2Key r, r.index, r.labelMap, r.rest⟩
+def t2Eff (r : T2Raw) : T2Eff := ⟨t2Key r, r.index, r.rest⟩
+
+/-- The key before the label map, the hybrid/GEL digest and the index identity were added (history of the defects). -/
+def t2KeyPre (r : T2Raw) : T2Key := { t2Key r with indexTok := 0, labelMap := 0, hybrid := 0 }
 
 def t2Stage {V : Type} (compute : T2Eff → V) (r : T2Raw) : V := compute (t2Eff r)
 
@@ -281,9 +289,11 @@ def qOf (code : Nat) : QCfg := if code = 0 then [(1, 5), (7, 0)] else if code = 
 /-- **IndexVersionFaithful.**  `T2Raw.index` is the code of the identity of the index object AND of everything T2
 reads from it (ids, texts, owners, dates, importance, exact vectors, in order).  `index_version()` is the only
 component of the key that stands for it: the key can only be sufficient for two requests whose equal versions imply
-equal index content.  Within ONE index object this holds as long as every mutation bumps the version (append-only
-`add`); it fails for an in-place upsert that keeps `_ver`, and across two index objects (finding `C05:t2:state`). -/
-def IndexVersionFaithful (r r' : T2Raw) : Prop := r.indexVer = r'.indexVer → r.index = r'.index
+equal index content.  Within ONE index object (equal `indexTok`, part of the key since the repair of `C05:t2:state`)
+this holds as long as every mutation bumps the version (append-only `add`); it fails for an in-place upsert that
+keeps `_ver`. -/
+def IndexVersionFaithful (r r' : T2Raw) : Prop :=
+  r.indexTok = r'.indexTok → r.indexVer = r'.indexVer → r.index = r'.index
 
 /-! Miniature of `InMemoryIndex` (rows = (id, content code)) for the version-faithfulness statements. -/
 structure MemIdx where
@@ -303,7 +313,7 @@ def MemIdx.runAppend (m : MemIdx) (l : List (Nat × Nat)) : MemIdx := l.foldl Me
 
 /-- The key as it was before the repair (owner, k_retrieval, now, ranking, residual cap, k_surface absent). -/
 def t2KeyLegacy (r : T2Raw) : T2Key :=
-  { t2Key r with ownerScope := 0, owner := 0, kRetrieval := 0, now := 0, rank := (0, 0, 0), residualCap := 0, kSurface := 0 }
+  { t2KeyPre r with ownerScope := 0, owner := 0, kRetrieval := 0, now := 0, rank := (0, 0, 0), residualCap := 0, kSurface := 0 }
 
 /-! ## turn-level manager (`orchestrator/core.py:run_turn`, namespace `t2:semantic`) -/
 
@@ -311,27 +321,53 @@ structure TurnRaw where
   version : Option (List Nat)   -- `state.version_etag` (code points); `None`
   text : List Nat               -- `str(input_text)`
   sliceK : Option Nat           -- `repr(slice_budgets["t2_k"])` when present
-  -- read by the wrapped T2 stage, NOT in the key
+  -- the components of `_t2_turn_key_context` (a sha1 over them: treated as injective)
   agent : Nat
-  t1Labels : Nat                -- what T1 reached (graph edits, T1 configuration, T1 slice budgets)
-  labelMap : Nat
-  config : Nat                  -- the whole T2 configuration
-  memory : Nat                  -- the memory index (adds do not bump `version_etag`)
   now : Nat
+  config : Nat                  -- cfg.t2 + cfg.perf + k_surface
+  t1Sig : Nat                   -- sorted ids of T1's graph deltas
+  graphs : Nat                  -- (gid, store.version_etag(gid)) of the active graphs
+  indexVer : Int                -- `mem_index.index_version()`
+  gel : Nat                     -- GEL edges when hybrid reranking is on, else 0
+  -- read by the wrapped T2 stage, NOT in the key (they are what `t1Sig`/`graphs`/`indexVer` stand for)
+  t1Labels : Nat                -- labels of the nodes T1 touched
+  labelMap : Nat
+  memory : Nat                  -- content of the state's memory index
 deriving Repr, DecidableEq
 
 structure TurnKey where
   ver : List Nat
   text : List Nat
   sliceK : Option Nat
+  agent : Nat
+  now : Nat
+  config : Nat
+  t1Sig : Nat
+  graphs : Nat
+  indexVer : Int
+  gel : Nat
 deriving Repr, DecidableEq
 
-/-- `(state.version_etag or "0", str(input_text)[, "t2_k=" + repr(t2_k)])` -/
+def verOr0 (v : Option (List Nat)) : List Nat :=
+  match v with
+  | none => [48]
+  | some [] => [48]
+  | some v => v
+
+/-- `(state.version_etag or "0", str(input_text)[, "t2_k=" + repr(t2_k)], _t2_turn_key_context(ctx, state, t1))` -/
 def turnKey (r : TurnRaw) : TurnKey :=
-  ⟨match r.version with
-   | none => [48]
-   | some [] => [48]
-   | some v => v, r.text, r.sliceK⟩
+  ⟨verOr0 r.version, r.text, r.sliceK, r.agent, r.now, r.config, r.t1Sig, r.graphs, r.indexVer, r.gel⟩
+
+/-- The key before `_t2_turn_key_context` was added: `(version, text[, t2_k])` (history of the defects). -/
+def turnKeyLegacy (r : TurnRaw) : TurnKey := ⟨verOr0 r.version, r.text, r.sliceK, 0, 0, 0, 0, 0, 0, 0⟩
+
+/-- The graph etags and T1's touched ids determine the labels the T2 query and the residual map use
+(`EtagFaithful` for the active graphs). -/
+def TurnGraphFaithful (r r' : TurnRaw) : Prop :=
+  r.t1Sig = r'.t1Sig → r.graphs = r'.graphs → r.t1Labels = r'.t1Labels ∧ r.labelMap = r'.labelMap
+
+/-- Within the state's index, the version determines the content (append-only `add`). -/
+def TurnMemoryFaithful (r r' : TurnRaw) : Prop := r.indexVer = r'.indexVer → r.memory = r'.memory
 
 structure TurnEff where
   text : List Nat
@@ -342,9 +378,11 @@ structure TurnEff where
   config : Nat
   memory : Nat
   now : Nat
+  gel : Nat
 deriving Repr, DecidableEq
 
-def turnEff (r : TurnRaw) : TurnEff := ⟨r.text, r.sliceK, r.agent, r.t1Labels, r.labelMap, r.config, r.memory, r.now⟩
+def turnEff (r : TurnRaw) : TurnEff :=
+  ⟨r.text, r.sliceK, r.agent, r.t1Labels, r.labelMap, r.config, r.memory, r.now, r.gel⟩
 
 def turnStage {V : Type} (compute : TurnEff → V) (r : TurnRaw) : V := compute (turnEff r)
 
